@@ -9,6 +9,14 @@ require (
 	pgregory.net/rapid v1.3.0
 )
 
-require github.com/sosodev/duration v1.3.1 // indirect
+require (
+	github.com/agnivade/levenshtein v1.2.1 // indirect
+	github.com/sosodev/duration v1.3.1 // indirect
+	golang.org/x/mod v0.24.0 // indirect
+	golang.org/x/sync v0.13.0 // indirect
+	golang.org/x/text v0.24.0 // indirect
+	golang.org/x/tools v0.32.0 // indirect
+	gopkg.in/yaml.v3 v3.0.1 // indirect
+)
 
 replace github.com/99designs/gqlgen => /repo
